@@ -651,47 +651,50 @@ def entityDecl (s : List Char) : Option (Decl × List Char) := do
       pure (if param then .paramEntity (String.ofList name) else .extEntity (String.ofList name), r3)
 
 /-- the internal subset after `[`: the declarations read so far, and `some rest` after the
-closing `]` if it was reached without a syntax error -/
-def intSubset : Nat → List Char → List Decl → List Decl × Option (List Char)
-  | 0, _, acc => (acc.reverse, none)
-  | f + 1, s, acc =>
+closing `]` if it was reached without a syntax error.  `live`: no parameter-entity reference has
+been passed yet — a non-validating parser that does not read parameter entities (expat as used
+here) must not process the entity declarations that follow one (XML 1.0 §5.1); they are recorded
+as inert (`.element`). -/
+def intSubset : Nat → List Char → List Decl → Bool → List Decl × Option (List Char)
+  | 0, _, acc, _ => (acc.reverse, none)
+  | f + 1, s, acc, live =>
     let s := skipWs s
     match s with
     | ']' :: r => (acc.reverse, some r)
     | '%' :: r =>                       -- parameter-entity reference `%name;`
       let (n, r') := takeName r
       match r' with
-      | ';' :: r'' => if n.isEmpty then (acc.reverse, none) else intSubset f r'' acc
+      | ';' :: r'' => if n.isEmpty then (acc.reverse, none) else intSubset f r'' acc false
       | _ => (acc.reverse, none)
     | _ =>
       match stripPrefix "<!--".toList s with
       | some r => match afterComment r with
-        | some r' => intSubset f r' (.comment :: acc)
+        | some r' => intSubset f r' (.comment :: acc) live
         | none => (acc.reverse, none)
       | none =>
       match stripPrefix "<?".toList s with
       | some r => match after "?>".toList r with
-        | some r' => intSubset f r' (.pi :: acc)
+        | some r' => intSubset f r' (.pi :: acc) live
         | none => (acc.reverse, none)
       | none =>
       match stripPrefix "<!ENTITY".toList s with
       | some r => match entityDecl r with
-        | some (d, r') => intSubset f r' (d :: acc)
+        | some (d, r') => intSubset f r' ((if live then d else .element) :: acc) live
         | none => (acc.reverse, none)
       | none =>
       match stripPrefix "<!ELEMENT".toList s with
       | some r => match skipDecl r.length r with
-        | some r' => intSubset f r' (.element :: acc)
+        | some r' => intSubset f r' (.element :: acc) live
         | none => (acc.reverse, none)
       | none =>
       match stripPrefix "<!ATTLIST".toList s with
       | some r => match skipDecl r.length r with
-        | some r' => intSubset f r' (.attlist :: acc)
+        | some r' => intSubset f r' (.attlist :: acc) live
         | none => (acc.reverse, none)
       | none =>
       match stripPrefix "<!NOTATION".toList s with
       | some r => match skipDecl r.length r with
-        | some r' => intSubset f r' (.notation :: acc)
+        | some r' => intSubset f r' (.notation :: acc) live
         | none => (acc.reverse, none)
       | none => (acc.reverse, none)
 
@@ -715,7 +718,7 @@ def doctypeDecl (s : List Char) : (Bool × List Decl) × Option (List Char) :=
     let s3 := skipWs s2
     match s3 with
     | '[' :: r =>
-      let (decls, rest) := intSubset (r.length + 1) r []
+      let (decls, rest) := intSubset (r.length + 1) r [] true
       match rest with
       | none => ((ext, decls), none)
       | some r' => ((ext, decls), stripPrefix ['>'] (skipWs r'))
